@@ -17,7 +17,7 @@ RUN_TIMEOUT = 120
 SELFTEST_PAIRS = {"quick": 12, "thorough": 30}
 PROBES = ["empty_mime_db", "hostile_mime_db", "reinit_from_sandbox_file", "decision_only_via_mime_fallback", "compound_extension", "url_like_path",
           "read_file_dispatch_checked", "archive_member_dispatch_checked", "attachment_dispatch_checked", "case_variant_checked", "symlink_path",
-          "trailing_separator_path", "history_revisits_path_after_db_change"]
+          "trailing_separator_path", "history_revisits_path_after_db_change", "every_mapped_mime_on_unknown_ext"]
 RULE = ("one run = a history of 20-60 operations interleaving routing calls (is_supported_file / get_extractor / read_file / archive member / "
         "e-mail attachment routing) on generated path strings with perturbations of the host MIME database (emptied, hostile overrides, re-init "
         "from a sandbox mime.types, restored), cwd changes and sandbox files; distinct non-trivial = (extension class, path shape, database "
@@ -129,6 +129,11 @@ def gen_case(rng: random.Random, tier: str) -> dict:
             ops.append(["db", "empty"])
         elif r < 0.78:
             ops.append(["db", "hostile", rng.sample(range(len(HOSTILE)), rng.choice([1, 2, 4]))])
+        elif r < 0.80:
+            ops.append(["db", "all_mapped"])
+            for _ in range(rng.choice([2, 4, 8])):
+                i = rng.randrange(200)
+                ops.append(["route", f"dir/file.zq{i}", f"zq{i}", "mapped", "dir|plain|lower|stem"])
         elif r < 0.83:
             lines = [f"{t}\t{e.lstrip('.')}" for t, e in rng.sample(HOSTILE, 3) if e.strip(". ")]
             ops.append(["db", "reinit", lines])
@@ -164,6 +169,16 @@ def _set_db(kind, arg, sbx):
             t, e = HOSTILE[i]
             try:
                 mimetypes.add_type(t, e, strict=True)
+            except Exception:
+                pass
+    elif kind == "all_mapped":
+        # every MIME type the library claims to map, attached to an extension nobody knows: support must mean an extractor exists
+        from sharepoint2text.parsing.mime_types import MIME_TYPE_MAPPING
+        if mimetypes._db is None:
+            mimetypes.init()
+        for i, mt in enumerate(sorted(MIME_TYPE_MAPPING)):
+            try:
+                mimetypes.add_type(mt, f".zq{i}", strict=True)
             except Exception:
                 pass
     elif kind == "reinit":
@@ -284,7 +299,7 @@ def run_case(case: dict) -> dict:
             if op[0] == "db":
                 _set_db(op[1], op[2] if len(op) > 2 else None, sbx)
                 dbstate = op[1] + (":" + ",".join(map(str, op[2])) if op[1] == "hostile" else "")
-                probe({"empty": "empty_mime_db", "hostile": "hostile_mime_db", "reinit": "reinit_from_sandbox_file", "default": "default_db"}[op[1]])
+                probe({"empty": "empty_mime_db", "hostile": "hostile_mime_db", "reinit": "reinit_from_sandbox_file", "default": "default_db", "all_mapped": "every_mapped_mime_on_unknown_ext"}[op[1]])
                 log.ev("db", dbstate)
             elif op[0] == "chdir":
                 os.chdir(os.path.join(sbx, op[1]) if op[1] != "." else os.path.join(sbx, "cwd"))
